@@ -277,8 +277,11 @@ func verifyPartChecksums(part part.Entity, calculated storage.ChecksumValues) er
 }
 
 func verifyObjectChecksums(object storage.Object, parts []part.Entity, partChecksums []storage.ChecksumValues) error {
-	// If single part, object checksums should match part checksums
-	if len(parts) == 1 {
+	// If single part, object checksums should match part checksums. An object
+	// with one part can still carry multipart-style checksums (ETag "<md5>-1":
+	// a multipart upload completed with a single part, or an object created by
+	// AppendObject); those are verified by the multipart branch below.
+	if len(parts) == 1 && !strings.Contains(object.ETag, "-") {
 		calculated := partChecksums[0]
 
 		if object.ETag != "" && calculated.ETag != nil {
